@@ -284,6 +284,12 @@ class Machine:
                 self.init_store(o, 0, g['ty'], g['init'])
             if g['external'] and nm in ('stderr', 'stdout', 'stdin'):
                 o.cells[0] = (8, Ptr(o.id, 64))
+            if g['external'] and nm.startswith('_ZTTSt13basic_fstream'):
+                # part of the std::fstream model: an inlined ~basic_fstream() re-points the vptrs through the VTT and
+                # reads the virtual-base offset (264 for basic_fstream<char>) at vtable[-3]
+                for k in range(10):
+                    o.cells[8 * k] = (8, Ptr(o.id, 2048 + 64 * k))
+                    o.cells[2048 + 64 * k - 24] = (8, 264)
             tpl.append(o)
         self.global_template = tpl
         self.global_end = base
